@@ -354,6 +354,9 @@ def run(chk):
     fb_models = {
         "gated-odd-ring": build({"en": I_, "n0": ("nand", ["en", "n2"]), "n1": ("not", ["n0"]), "n2": ("not", ["n1"]), "o": ("buf", ["n0"])}, outputs=["o"]),
         "gated-odd-ring-through-an-or": build({"en": I_, "b": I_, "n0": ("or", ["en", "n2"]), "n1": ("not", ["n0"]), "n2": ("buf", ["n1"]), "o": ("and", ["n0", "b"])}, outputs=["o"]),
+        # a gate that is its own operand (the cone must keep the self-loop edge): r = 1 forces q = 0, r = 0 leaves no consistent value
+        "self-loop-nor": build({"r": I_, "b": I_, "q": ("nor", ["r", "q"]), "o": ("or", ["q", "b"])}, outputs=["o"]),
+        "self-loop-xnor-behind-a-gate": build({"a": I_, "b": I_, "g": ("and", ["a", "b"]), "q": ("nor", ["g", "q"]), "o": ("buf", ["q"])}, outputs=["o"]),
         "two-gated-rings": build({"e0": I_, "e1": I_, "p0": ("nand", ["e0", "p1"]), "p1": ("buf", ["p0"]), "q0": ("nor", ["e1", "q1"]), "q1": ("buf", ["q0"]), "o": ("or", ["p0", "q0"])}, outputs=["o"]),
     }
     PSRC = _pp(repo, True)  # the repository's own counter from source over the DPLL solver model (the reference counter simulates)
